@@ -169,10 +169,18 @@ def run (ctx):
   # ---- D2 emission guards -------------------------------------------------------
   op = q.find_method(repo, sw, '_output_packet', 'C12'); ctx.analysed(op)
   nested = q.nested_defs(op.node)
-  rs = nested.get('real_send')
+  # the checked send: the closure of _output_packet - or the method of the switch - that calls the physical emission
+  def _emits (fn): return any(call_name(c) == '_output_packet_physical' for c in calls_in(fn))
+  rs = None; RS = None
+  for nm_, fn_ in nested.items():
+    fn_ = getattr(fn_, 'node', fn_)
+    if _emits(fn_): rs = fn_; RS = nm_
   if rs is None:
-    # accept the guards living in a method instead of a closure
-    raise AnalysisError("_output_packet.real_send closure not found (emission guards anchor)")
+    for nm_, m_ in sw.methods.items():
+      if nm_ not in ('_output_packet', '_output_packet_physical') and _emits(m_.node) and any(call_name(c) == nm_ for c in calls_in(op.node)):
+        rs = m_.node; RS = nm_
+  if rs is None:
+    raise AnalysisError("the checked send (closure or method between _output_packet and _output_packet_physical) not found (emission guards anchor)")
   g = q.cfg_of(rs)
   emit = g.nodes_with_call(lambda c: call_name(c) == '_output_packet_physical')
   cnt = {}
@@ -228,17 +236,24 @@ def run (ctx):
       if norm(st.value) == 'len(packet)':
         # len() of a packet object is the length of its serialisation only while packet_base.__len__ says so: the actions have
         # rewritten the headers in place, the bytes the frame was parsed from (`raw`) are stale
-        pb_ = repo.cls('lib.packet.packet_base', 'packet_base'); ln_ = pb_.methods.get('__len__') if pb_ is not None else None
-        if ln_ is not None:
+        # the frames the switch handles are `ethernet` objects: every __len__ along ethernet's MRO that can answer
+        eth_ = repo.cls('lib.packet.ethernet', 'ethernet'); pb_ = repo.cls('lib.packet.packet_base', 'packet_base')
+        lens_ = [k_.methods['__len__'] for k_ in (eth_.mro() if eth_ is not None else [pb_]) if k_ is not None and '__len__' in k_.methods]
+        for ln_ in lens_:
           ctx.analysed(ln_)
           rets_ = [r_ for r_ in q.returns_of(ln_.node) if r_.value is not None]
-          stale_ = [r_ for r_ in rets_ if any(isinstance(x, ast.Attribute) and x.attr == 'raw' for x in ast.walk(r_.value))]
+          # attributes that parse() recorded about the received bytes (raw, hdr_len, payload_len, ...) describe the frame as it
+          # arrived, not as the actions left it
+          pm_ = ln_.cls.find_method('parse') if ln_.cls is not None else None
+          parsed_attrs = set(t_.attr for t_, v_, s_, k_ in q.stores_in(pm_.node) if isinstance(t_, ast.Attribute) and norm(t_.value) == 'self') if pm_ is not None else set()
+          parsed_attrs |= {'raw'}; parsed_attrs -= {'parsed', 'next'}
+          stale_ = [r_ for r_ in rets_ if any(isinstance(x, ast.Attribute) and norm(x.value) == 'self' and x.attr in parsed_attrs for x in ast.walk(r_.value))]
           ctx.ob('R-AGREE', ln_, "len(packet) is the length of what pack() emits", bool(rets_) and not stale_, "len(self.pack())" if rets_ and not stale_ else
                  "`%s` measures the bytes the frame was parsed from, not the frame as the actions left it: after a VLAN push/strip the transmit byte counter is off by the tag's four bytes on every port the frame is sent to" % norm(stale_[0]) if stale_ else "no return", (ln_.module, (stale_ or rets_ or [ln_.node])[0]), 'D2')
 
   # ---- D7 virtual ports --------------------------------------------------------
   g = q.cfg_of(op)
-  calls_rs = g.nodes_with_call(lambda c: call_name(c) == 'real_send')
+  calls_rs = g.nodes_with_call(lambda c: call_name(c) == RS)
   P = spec['ofp_port']
   def reach_out (val, extra=None):
     env = q.Env({'out_port': val}, extra or [])
@@ -247,18 +262,29 @@ def run (ctx):
     v = ofreg.const_value(repo, swmod, pname)
     ctx.ob('R-REG', swmod.short + ':' + pname, "virtual port constant", v == P[pname], "%s = %s" % (pname, v), sw, 'D7')
   def sites (r, name): return [n for n in r if n.ast is not None and any(call_name(c) == name for c in q.node_calls(n))]
+  rs_params = [a.arg for a in rs.args.args if a.arg not in ('self',)]
+  def rs_arg (c, role):
+    # the argument a call of the checked send binds to its parameter `role`
+    for k_ in c.keywords:
+      if k_.arg == role: return k_.value
+    if role in rs_params and rs_params.index(role) < len(c.args): return c.args[rs_params.index(role)]
+    if role in rs_params:
+      a_ = rs.args.args[[x.arg for x in rs.args.args].index(role)]
+      dflt = rs.args.defaults; pos = [x.arg for x in rs.args.args].index(role) - (len(rs.args.args) - len(dflt))
+      if pos >= 0: return dflt[pos]
+    return None
   r = reach_out(5)
-  rsn = sites(r, 'real_send')
-  good = len(rsn) == 1 and norm([c for c in q.node_calls(rsn[0]) if call_name(c) == 'real_send'][0].args[0]) == 'out_port' and not sites(r, 'send_packet_in') and not sites(r, 'rx_packet')
-  ctx.ob('R-REG', op, "physical port: one direct send", good, "real_send(out_port)" if good else "physical output reaches %s" % [n.text(40) for n in rsn], op, 'D7')
-  r = reach_out(P['OFPP_IN_PORT']); rsn = sites(r, 'real_send')
+  rsn = sites(r, RS)
+  good = len(rsn) == 1 and norm(rs_arg([c for c in q.node_calls(rsn[0]) if call_name(c) == RS][0], 'port_no')) == 'out_port' and not sites(r, 'send_packet_in') and not sites(r, 'rx_packet')
+  ctx.ob('R-REG', op, "physical port: one direct send", good, "%s(out_port)" % RS if good else "physical output reaches %s" % [n.text(40) for n in rsn], op, 'D7')
+  r = reach_out(P['OFPP_IN_PORT']); rsn = sites(r, RS)
   good = len(rsn) == 1
   if good:
-    c = [c for c in q.node_calls(rsn[0]) if call_name(c) == 'real_send'][0]
-    good = norm(c.args[0]) == 'in_port' and norm(kwarg(c, 'allow_in_port', 1)) == 'True'
-  ctx.ob('R-REG', op, "OFPP_IN_PORT sends on the ingress port with the ingress exception", good, "real_send(in_port, allow_in_port=True)" if good else "IN_PORT arm: %s" % [n.text(50) for n in rsn], op, 'D7')
+    c = [c for c in q.node_calls(rsn[0]) if call_name(c) == RS][0]
+    good = norm(rs_arg(c, 'port_no')) == 'in_port' and norm(rs_arg(c, 'allow_in_port')) == 'True'
+  ctx.ob('R-REG', op, "OFPP_IN_PORT sends on the ingress port with the ingress exception", good, "%s(in_port, allow_in_port=True)" % RS if good else "IN_PORT arm: %s" % [n.text(50) for n in rsn], op, 'D7')
   for pname, noflood in (('OFPP_FLOOD', True), ('OFPP_ALL', False)):
-    r = reach_out(P[pname]); rsn = sites(r, 'real_send')
+    r = reach_out(P[pname]); rsn = sites(r, RS)
     loops = [(st, h, af) for (st, h, af) in g.loop_nodes if h in r]
     good = len(rsn) == 1 and len(loops) == 1 and norm(loops[0][0].iter) in ('self.ports.items()', 'self.ports.values()', 'self.ports')
     ctx.ob('R-REG', op, "%s iterates over all ports" % pname, good, "loop over self.ports with one send" if good else "%s arm: loops %s sends %s" % (pname, [norm(l[0].iter) for l in loops], len(rsn)), op, 'D7')
@@ -286,13 +312,17 @@ def run (ctx):
       ctx.ob('R-DOM', op, "OFPP_ALL includes flood-disabled ports", not blocked, "NO_FLOOD does not affect ALL" if not blocked else "OFPP_ALL skips NO_FLOOD ports (only FLOOD should)", (swmod, st), 'D7')
   r = reach_out(P['OFPP_CONTROLLER'])
   bp = sites(r, '_buffer_packet'); sp = sites(r, 'send_packet_in')
-  good = len(bp) == 1 and len(sp) == 1 and not sites(r, 'real_send')
+  good = len(bp) == 1 and len(sp) == 1 and not sites(r, RS)
   if good:
     c = [c for c in q.node_calls(sp[0]) if call_name(c) == 'send_packet_in'][0]
     good = norm(kwarg(c, 'reason', 3)) == 'OFPR_ACTION' and norm(kwarg(c, 'data_length', 4)) == 'max_len' and norm(c.args[0]) == 'in_port' and g.dominates(bp[0], sp[0])
+  # what send_packet_in makes of that max_len (0 = no bytes, buffered frames only, the whole frame when unbuffered): shared with C18 / C11
+  from . import c18
+  spi_ = q.find_method(repo, sw, 'send_packet_in', 'C12 packet-in'); ctx.analysed(spi_)
+  c18.packet_in_rules(ctx, repo, spi_)
   ctx.ob('R-REG', op, "OFPP_CONTROLLER buffers, then sends a packet-in with reason ACTION and the action's max_len", good, "buffer then send_packet_in(in_port, buffer_id, packet, reason=OFPR_ACTION, data_length=max_len)" if good else "CONTROLLER arm changed", op, 'D7')
   r = reach_out(P['OFPP_TABLE'])
-  good = len(sites(r, 'rx_packet')) == 1 and not sites(r, 'real_send')
+  good = len(sites(r, 'rx_packet')) == 1 and not sites(r, RS)
   ctx.ob('R-REG', op, "OFPP_TABLE resubmits the frame to the flow table", good, "rx_packet(packet, in_port)" if good else "TABLE arm changed", op, 'D7')
 
   # ---- D3 receive guards ---------------------------------------------------------
